@@ -6,9 +6,9 @@ import (
 	"math/rand"
 	"os"
 	"path/filepath"
+	"runtime/pprof"
 	"sort"
 	"strings"
-	"runtime/pprof"
 	"sync"
 	"time"
 
@@ -276,8 +276,8 @@ func runCluster(c *corr.Ctx) error {
 
 	// cluster runs, a few at a time
 	nc := c.Scale(120, 2500)
-	specs := make([]runSpec, 0, nc+1)
-	specs = append(specs, runSpec{Seed: 1, Profile: "f20"})
+	specs := make([]runSpec, 0, nc+2)
+	specs = append(specs, runSpec{Seed: 1, Profile: "f20"}, runSpec{Seed: 1, Profile: "newleader"})
 	for i := 0; i < nc; i++ {
 		p := "mixed"
 		if c.Prop == "C23" || i%3 == 2 {
